@@ -1,8 +1,30 @@
-"""C16 - scope analysis agrees with Python's own symbol table (bounded)."""
-from pyvc import native
+"""C16 - scope analysis agrees with Python's own symbol table."""
+from pyvc import native, frontend
 
 
 def run(rep, tier, seed):
+    # finite obligation: the complete list of name-binding constructs of the language reference, one minimal function
+    # each; the bound name must be classified as CPython's compiler classifies it (symtable is the specification)
+    class _S:
+        name = 'finite-domain evaluation over the binding constructs of the language reference'
+        notes = 'symtable (CPython compiler) is the specification; one minimal program per construct'
+    for ident in ('fst:FST.scope_symbols',):
+        try:
+            rep.function(frontend.locate(ident), _S)
+        except Exception:
+            pass
+    r = native.run('b_scope', 'finite_binding_constructs', {})
+    failing = {f['key']: f for f in r['failures']}
+    for key in r['checked']:
+        f = failing.get(key)
+        rep.other('finite', key, f is None, detail=(f['what'] if f else None), key=key,
+                  replay=dict(f or {}, native_entry=('b_scope', 'replay_binding')))
+    if len(r['checked']) < 28:
+        rep.checker_error(f'binding construct table shrank: {len(r["checked"])}')
+    rep.trusted.append('symtable (CPython 3.12 compiler) is the specification of scope membership and classification; '
+                       'PEP 709 comprehension inlining adjustment stated in contracts/b_scope.py')
     sec = native.run('b_scope', 'main', {'tier': tier, 'seed': seed})
     sec['native_entry'] = ('b_scope', 'replay')
     rep.bounded(sec)
+    rep.remainder = ('scope membership and classification on arbitrary programs: bounded stand-in (25 scope programs); the '
+                     'specification is CPython\'s compiler, an external oracle no contract can restate')
